@@ -120,6 +120,21 @@ func newUnexpectedValueError(tok token, expected string) error {
 	return &UnexpectedValueError{newBaseError(tok.Pos), tok, expected}
 }
 
+// DuplicateBlockError describes a second definition of a block name in one template.
+type DuplicateBlockError struct {
+	baseError
+	name string
+}
+
+func (e *DuplicateBlockError) Error() string {
+	return e.sprintf(`the block "%s" has already been defined`, e.name)
+}
+
+// newDuplicateBlockError returns a new DuplicateBlockError
+func newDuplicateBlockError(name token) error {
+	return &DuplicateBlockError{newBaseError(name.Pos), name.value}
+}
+
 // MultipleExtendsError describes an attempt to extend from multiple parent templates.
 type MultipleExtendsError struct {
 	baseError
